@@ -4,6 +4,9 @@
  * for the arbitrary ghost index vg_k; capacity >= length; nothing else assigned; the
  * argument is not modified (it is outside the assigns clause).
  * .empty = self in the (NULL,0,0) state, .nonempty = self owns a block.
+ * prepend moves the old bytes up by n: the byte that arrives at vg_k comes from offset
+ * vg_k2 = vg_k - n; the clause is guarded by that relation between the two arbitrary ghosts
+ * (the ghost copy models of env_mbuff.h keep exactly the object offsets vg_k and vg_k2).
  * Sums of capacities are kept below VCAP by the precondition (representability only). */
 
 /*@unit
@@ -108,8 +111,8 @@ __CPROVER_ensures(!(vg_k >= (size_t) OLEN(self) && vg_k < (size_t) self->len) ||
                   self->buff[vg_k] == other->buff[vg_k - (size_t) OLEN(self)])
 # else
 __CPROVER_ensures(!(vg_k < (size_t) other->len) || self->buff[vg_k] == other->buff[vg_k])
-__CPROVER_ensures(!(vg_k >= (size_t) other->len && vg_k < (size_t) self->len) ||
-                  self->buff[vg_k] == OLD_BYTE(self, vg_k - (size_t) other->len))
+__CPROVER_ensures(!(vg_k >= (size_t) other->len && vg_k < (size_t) self->len) || vg_k2 != vg_k - (size_t) other->len ||
+                  self->buff[vg_k] == OLD_BYTE(self, vg_k2))
 # endif
 ;
 void harness(void)
@@ -142,8 +145,8 @@ __CPROVER_ensures(!(vg_k >= (size_t) OLEN(self) && vg_k < (size_t) self->len) ||
                   self->buff[vg_k] == other[vg_k - (size_t) OLEN(self)])
 # else
 __CPROVER_ensures(!(vg_k < (size_t) len) || self->buff[vg_k] == other[vg_k])
-__CPROVER_ensures(!(vg_k >= (size_t) len && vg_k < (size_t) self->len) ||
-                  self->buff[vg_k] == OLD_BYTE(self, vg_k - (size_t) len))
+__CPROVER_ensures(!(vg_k >= (size_t) len && vg_k < (size_t) self->len) || vg_k2 != vg_k - (size_t) len ||
+                  self->buff[vg_k] == OLD_BYTE(self, vg_k2))
 # endif
 ;
 void harness(void)
